@@ -160,8 +160,15 @@ def load_module(file: str) -> ModuleInfo:
     return mod
 
 
+def _mangle(cname: str, name: str) -> str:
+    if name.startswith("__") and not name.endswith("__"):
+        return f"_{cname.lstrip('_')}{name}"
+    return name
+
+
 def _load_class(mod: ModuleInfo, node: ast.ClassDef) -> ClassInfo:
     ci = ClassInfo(node.name, mod.file, node, mod, list(node.bases))
+    mg = lambda n: _mangle(node.name, n)  # noqa: E731
     for item in node.body:
         if isinstance(item, ast.FunctionDef):
             decos = _decorator_names(item)
@@ -172,11 +179,12 @@ def _load_class(mod: ModuleInfo, node: ast.ClassDef) -> ClassInfo:
                 kind = "classmethod"
             if "property" in decos or "abstractproperty" in decos:
                 fi = FuncInfo(mod.file, f"{node.name}.{item.name}", item, node.name, mod, "getter")
-                ci.members[item.name] = ("prop", {"fget": fi, "fset": None, "fdel": None})
+                ci.members[mg(item.name)] = ("prop", {"fget": fi, "fset": None, "fdel": None})
                 continue
             acc = [d for d in decos if d.endswith(".setter") or d.endswith(".deleter") or d.endswith(".getter")]
             if acc:
                 pname, what = acc[0].rsplit(".", 1)
+                pname = mg(pname)
                 slot = {"setter": "fset", "deleter": "fdel", "getter": "fget"}[what]
                 fi = FuncInfo(mod.file, f"{node.name}.{item.name}@{what}", item, node.name, mod, what)
                 ent = ci.members.get(pname)
@@ -187,11 +195,11 @@ def _load_class(mod: ModuleInfo, node: ast.ClassDef) -> ClassInfo:
                 ent[1][slot] = fi
                 continue
             fi = FuncInfo(mod.file, f"{node.name}.{item.name}", item, node.name, mod, kind)
-            ci.members[item.name] = ("func", fi)
+            ci.members[mg(item.name)] = ("func", fi)
         elif isinstance(item, ast.Assign) and len(item.targets) == 1 and isinstance(item.targets[0], ast.Name):
-            ci.members[item.targets[0].id] = ("assign", item.value)
+            ci.members[mg(item.targets[0].id)] = ("assign", item.value)
         elif isinstance(item, ast.AnnAssign) and isinstance(item.target, ast.Name) and item.value is not None:
-            ci.members[item.target.id] = ("assign", item.value)
+            ci.members[mg(item.target.id)] = ("assign", item.value)
     return ci
 
 
@@ -237,7 +245,7 @@ def find_function(file: str, qualname: str) -> FuncInfo:
     what = None
     if "@" in rest:
         rest, what = rest.split("@")
-    ent = ci.members.get(rest)
+    ent = ci.members.get(rest) or ci.members.get(_mangle(cname, rest))
     if ent is None:
         raise ExtractionError(f"{file}: no member {cname}.{rest}")
     if ent[0] == "func":
